@@ -513,6 +513,8 @@ fn case_strategy() -> impl Strategy<Value = Case> {
         30 => halfway_case(),
         20 => (any::<bool>(), wide_literal()).prop_map(|(single, lit)| Case::Float { single, lit, halfway: false }),
         12 => printed_float_case(),
+        2 => (any::<bool>(), crate::gen::lit::extreme_exponent_literal()).prop_map(|(single, lit)| Case::Float { single, lit, halfway: false }),
+        1 => crate::gen::lit::extreme_exponent_literal().prop_map(|lit| Case::BoolLit { lit }),
         // short literals: at most 19 digits, small or no exponent (the range of the readers' shortcuts)
         10 => (any::<bool>(), prop_oneof![3 => Just(false), 1 => Just(true)], "[0-9]{1,19}", 0u32..22, prop_oneof![2 => Just(None), 1 => (-30i32..=30).prop_map(Some)]).prop_map(|(single, neg, digits, scale, exp)| {
             let scale = scale.min(digits.len() as u32 + 2);
@@ -535,7 +537,7 @@ fn case_strategy() -> impl Strategy<Value = Case> {
 }
 
 fn run(e: &Engine) {
-    e.proptest("literals-keywords-matrix", e.tier.pick(1_200_000, 40_000_000), case_strategy, check);
+    e.proptest("literals-keywords-matrix", e.tier.pick(4_000_000, 60_000_000), case_strategy, check);
     if !e.replay_only && !e.failed() {
         let floats = e.label_count("f32 literal") + e.label_count("f64 literal");
         let half = e.label_count("halfway literal");
